@@ -124,6 +124,9 @@ def cases(tier):
     for (M, M2) in sens[1:3]:
         for Rg in (-1.0, -0.5, 0.0, 0.5):
             out.append({"kind": "matrix", "M": M, "M2": M2, "Rg": Rg, "_weight": 2})
+            # range/mean layout whose classes at mean 0 are already at R = -1: their ranges fall on class edges
+            out.append({"kind": "matrix", "M": M, "M2": M2, "Rg": Rg, "layout": "range_mean", "_weight": 2})
+            out.append({"kind": "matrix", "M": M, "M2": M2, "Rg": Rg, "layout": "range_mean0", "_weight": 2})
     return out
 
 
@@ -262,8 +265,16 @@ def run(ctx, case):
 
 def _run_matrix(ctx, case):
     M, M2, Rg = case["M"], case["M2"], case["Rg"]
-    fr = pd.IntervalIndex.from_breaks([-2.0, 0.0, 2.0, 4.0], name="from")
-    to = pd.IntervalIndex.from_breaks([-2.0, 0.0, 2.0, 4.0], name="to")      # diagonal classes have zero range
+    if case.get("layout") == "range_mean0":
+        # every class sits at mean 0 (R = -1): for R_goal = -1 the ranges 2, 4, 6 are exactly the class edges of the result
+        fr = pd.IntervalIndex.from_breaks([1.0, 3.0, 5.0, 7.0], name="range")
+        to = pd.IntervalIndex.from_breaks([-1.0, 1.0], name="mean")
+    elif case.get("layout") == "range_mean":
+        fr = pd.IntervalIndex.from_breaks([1.0, 3.0, 5.0, 7.0], name="range")        # ranges 2, 4, 6
+        to = pd.IntervalIndex.from_breaks([-3.0, -1.0, 1.0, 3.0], name="mean")       # means -2, 0, 2
+    else:
+        fr = pd.IntervalIndex.from_breaks([-2.0, 0.0, 2.0, 4.0], name="from")
+        to = pd.IntervalIndex.from_breaks([-2.0, 0.0, 2.0, 4.0], name="to")      # diagonal classes have zero range
     idx = pd.MultiIndex.from_product([fr, to])
     counts = [ctx.real("n%d" % i) for i in range(len(idx))]
     for c in counts:
